@@ -24,6 +24,7 @@ def main():
     args = [a for a in sys.argv[1:] if not a.startswith('--')]
     suite = '--suite' in sys.argv
     nocheck = '--nocheck' in sys.argv
+    sandbox = '--sandbox' in sys.argv   # run the check in a scratch copy of /verif + /repo (so that /repo stays free meanwhile)
     pid, wt = args[0], args[1]
     muts = args[2:] or sorted(glob.glob(os.path.join(wt, '_mut', 'm*')))
     results = []
@@ -90,15 +91,35 @@ def main():
         # run my check against it
         caught, line, wall = None, '', 0
         if not nocheck:
-            st, _ = sh('git status --porcelain', cwd='/repo')
-            if st != 0 or _.strip():
-                res['status'] = '/repo not clean; skipped check'; results.append(res); continue
-            rc, out = sh(f'git apply {os.path.join(sd, "patch.diff")}', cwd='/repo')
-            t0 = time.time()
-            try:
-                rcc, outc = sh(f'./check {pid} --tier quick', cwd=ROOT, timeout=3000)
-            finally:
-                sh('git checkout -- .', cwd='/repo')
+            if sandbox:
+                ev = f'/tmp/ev-{pid}'
+                os.makedirs(ev, exist_ok=True)
+                sh(f'rsync -a --delete /repo/ {ev}/repo/ && rsync -a --delete --exclude .scratch --exclude replays {ROOT}/ {ev}/verif/')
+                sh(f'git checkout -- . && git clean -fdq', cwd=f'{ev}/repo')
+                sh(f"sed -i 's|=> /repo|=> {ev}/repo|' {ev}/verif/go/go.mod")
+                rc, out = sh(f'git apply {os.path.join(sd, "patch.diff")}', cwd=f'{ev}/repo')
+                t0 = time.time()
+                rcc, outc = sh(f'VERIF_REPO={ev}/repo ./check {pid} --tier quick', cwd=f'{ev}/verif', timeout=3000)
+                for l in outc.splitlines():
+                    mm = re.match(r'VIOLATION property=\S+ replay=(\S+)', l)
+                    if mm and os.path.exists(mm.group(1)):
+                        shutil.copy(mm.group(1), os.path.join(sd, 'replay.json'))
+                        break
+                outc = outc.replace(f'{ev}/verif', '/verif')
+            else:
+                st, _ = sh('git status --porcelain', cwd='/repo')
+                if st != 0 or _.strip():
+                    res['status'] = '/repo not clean; skipped check'; results.append(res); continue
+                evf = os.path.join(ROOT, 'evidence', pid + '.json')
+                ev_saved = open(evf).read() if os.path.exists(evf) else None   # evidence must describe the unchanged tree
+                rc, out = sh(f'git apply {os.path.join(sd, "patch.diff")}', cwd='/repo')
+                t0 = time.time()
+                try:
+                    rcc, outc = sh(f'./check {pid} --tier quick', cwd=ROOT, timeout=3000)
+                finally:
+                    sh('git checkout -- .', cwd='/repo')
+                    if ev_saved is not None:
+                        open(evf, 'w').write(ev_saved)
             wall = time.time() - t0
             vl = [l for l in outc.splitlines() if l.startswith('VIOLATION')]
             caught = rcc != 0 and bool(vl)
